@@ -168,8 +168,19 @@ class kFlowDecompCycles(walkmodel.AbstractWalkModelDiGraph):
         # Call the constructor of the parent class AbstractPathModelDAG
         # Build per-edge repetition upper bounds: use the edge flow when available,
         # otherwise fall back to self.w_max (e.g., for source/sink helper edges).
+        # A walk of weight at least 1 traverses edges with a flow value at most as many times as their total flow,
+        # and between two such traversals it may need every edge without a flow value (ignored edges) once
+        # (once more for every ignored edge that a subset constraint asks it to reach in between).
+        total_flow = sum(
+            data[self.flow_attr] for u, v, data in self.G.edges(data=True)
+            if self.flow_attr in data and (u, v) not in self.edges_to_ignore
+        )
+        ignored_in_constraints = len({
+            tuple(e) for constraint in (self.subset_constraints or []) for e in constraint if tuple(e) in self.edges_to_ignore
+        })
+        ignored_edge_upper_bound = max(self.w_max, (int(total_flow) + 1) * (1 + ignored_in_constraints))
         self.edge_upper_bounds_dict = {
-            (u, v): (data[self.flow_attr] if self.flow_attr in data and (u, v) not in self.edges_to_ignore else self.w_max)
+            (u, v): (data[self.flow_attr] if self.flow_attr in data and (u, v) not in self.edges_to_ignore else ignored_edge_upper_bound)
             for u, v, data in self.G.edges(data=True)
         }
         super().__init__(
